@@ -77,7 +77,9 @@ let parse_routes s =
 let parse_msgs s =
   if s = "-" then [] else
   List.map (fun m -> match split ';' m with
-      | [ serial; typ; obj; sender; res; body; nr; flags; dest; inbody; _byteorder ] ->
+      (* the trailing field (signals the handler sends itself through env.conn) is not part of the model:
+         the check strips those signals from the implementation's trace and judges them apart *)
+      | serial :: typ :: obj :: sender :: res :: body :: nr :: flags :: dest :: inbody :: _byteorder :: ([] | [ _ ]) ->
           let call = typ = "c" || typ = "k" in
           let dh = { dh_interface = (if typ = "s" then Some (bytes_of_string "verif.I") else None);
                      dh_member = (if call || typ = "s" then Some (bytes_of_string "M") else None);
